@@ -224,6 +224,16 @@ impl Net {
     pub fn log(&self, i: usize) -> Vec<Block> {
         self.commits[i].lock().unwrap().clone()
     }
+    /// One raw frame to one of node `to`'s real ports (kind 0 consensus, 1 transactions, 2 mempool),
+    /// on a fresh connection.
+    pub async fn send_frame(&self, to: usize, kind: u16, bytes: Vec<u8>) {
+        let addr = format!("127.0.0.1:{}", real_port(self.base, to, kind)).parse().unwrap();
+        if let Ok(s) = TcpStream::connect(addr).await {
+            let mut f = Framed::new(s, LengthDelimitedCodec::new());
+            let _ = f.send(Bytes::from(bytes)).await;
+            tokio::time::sleep(Duration::from_millis(1)).await;
+        }
+    }
     pub async fn send_tx(&self, to: usize, tx: Vec<u8>) {
         let addr = format!("127.0.0.1:{}", real_port(self.base, to, 1)).parse().unwrap();
         if let Ok(s) = TcpStream::connect(addr).await {
